@@ -36,7 +36,8 @@ func TestMain(m *testing.M) {
 	rec.Rule("cases = (input, delivery) pairs. Inputs: every sequence of statement templates with <=3 (thorough <=4) lines in total, " +
 		"drawn from an alphabet of one-line statements, comment/blank lines and multi-line statements built as head x middle x tail " +
 		"(line ends in every binary/assignment operator, comma, each opening bracket, continuation keywords; strings, runes, raw strings and comments containing quotes, brackets, // and /*); " +
-		"rapid-drawn longer sequences with nesting, CRLF, indentation, '#!' first line; standard-library files split into the stream of top-level declarations and, per function, the stream of body statements. " +
+		"every item x leading material (none, spaces, tabs, block comment) x trailing material (none, spaces, // comment, /* */ comment, both) on its first line, last line and all lines; " +
+		"rapid-drawn longer sequences with per-line leading/trailing material, nesting, CRLF, indentation, '#!' first line; standard-library files split into the stream of top-level declarations and, per function, the stream of body statements. " +
 		"Deliveries: one line per Readline.Read, whole buffer through BufReadline (buffer 4096 and 16 bytes), with and without final newline, first read with and without ReadOptCollectAllComments, base.ReadMultiline and fast.Interp.Read. " +
 		"A case is non-trivial when the reader returns at least one chunk spanning more than one line; distinct = distinct input texts")
 	rec.Assume("go/scanner and go/parser of the standard library decide what is lexically valid Go, where tokens start and where declarations/statements begin and end")
